@@ -77,6 +77,34 @@ Theorem C22_add_then_remove : forall (key T : Type) (ltb : T -> T -> bool) (scor
 Proof. exact Proof.C22.add_then_remove. Qed.
 Print Assumptions C22_add_then_remove.
 
+(* minimal disruption as ca_store.go:567 and ring.go use it (top owner / top-n window of a key):
+   on AddNode a key's top owner changes only by moving TO the new node ... *)
+Theorem C22_add_moves_only_to_new : forall (key T : Type) (ltb : T -> T -> bool) (score : node -> key -> T),
+  strict_total ltb -> forall ns k n,
+  ~ In (label n) (map label ns) -> NoDup (map label ns) -> tie_free score k (add_node n ns) ->
+  hd_error (ordered ltb score (add_node n ns) k) = Some n \/
+  hd_error (ordered ltb score (add_node n ns) k) = hd_error (ordered ltb score ns k).
+Proof. exact Proof.C22.add_top1. Qed.
+Print Assumptions C22_add_moves_only_to_new.
+
+(* ... on RemoveNode only by moving AWAY from the removed node ... *)
+Theorem C22_remove_moves_only_from_removed : forall (key T : Type) (ltb : T -> T -> bool) (score : node -> key -> T),
+  strict_total ltb -> forall ns k l x,
+  NoDup (map label ns) -> tie_free score k ns ->
+  hd_error (ordered ltb score ns k) = Some x -> label x <> l ->
+  hd_error (ordered ltb score (remove_node l ns) k) = Some x.
+Proof. exact Proof.C22.remove_top1. Qed.
+Print Assumptions C22_remove_moves_only_from_removed.
+
+(* ... and every member of a new top-m window is the added node or was in the old window *)
+Theorem C22_add_topn_window : forall (key T : Type) (ltb : T -> T -> bool) (score : node -> key -> T),
+  strict_total ltb -> forall ns k n m y,
+  ~ In (label n) (map label ns) -> NoDup (map label ns) -> tie_free score k (add_node n ns) ->
+  In y (get_ordered_nodes ltb score (add_node n ns) k m) ->
+  y = n \/ In y (get_ordered_nodes ltb score ns k m).
+Proof. exact Proof.C22.add_topn. Qed.
+Print Assumptions C22_add_topn_window.
+
 (* GetOrderedNodes(key, n) is the n-prefix; "number of returned nodes = min(n, len(nodes))" *)
 Theorem C22_top_n : forall (key T : Type) (ltb : T -> T -> bool) (score : node -> key -> T) ns k n,
   get_ordered_nodes ltb score ns k n = firstn n (ordered ltb score ns k) /\
